@@ -1,7 +1,7 @@
 #!/usr/bin/env python3
 """Re-run all 20 quick checks against every seeded change kept under /verif/seeded and refresh 'caught_by' / 'checks'
 in its meta.json (demonstration and baseline results are kept from tools/seed_verify.py).
-usage: seed_recheck.py [name-substring ...]"""
+usage: seed_recheck.py [--all] [name-substring ...]   (default: only the property's own check and the checks that fired before)"""
 import glob, json, os, subprocess, sys
 from concurrent.futures import ThreadPoolExecutor
 VERIF = os.path.dirname(os.path.dirname(os.path.abspath(__file__)))
@@ -15,9 +15,9 @@ def one(d):
     r = subprocess.run(f"git -C {wt} apply {d}/patch.diff", shell=True, capture_output=True, text=True)
     assert r.returncode == 0, r.stderr
     m = json.load(open(f"{d}/meta.json"))
-    checks = {}
-    for i in range(1, 21):
-        pid = f"C{i:02d}"
+    checks = dict(m.get("checks", {})) if QUICK else {}
+    todo = sorted(set([m["property"]] + list(m.get("caught_by", [])))) if QUICK else [f"C{i:02d}" for i in range(1, 21)]
+    for pid in todo:
         e = dict(os.environ, GCVERIF_REPO=wt, GCVERIF_EVIDENCE_DIR=f"/tmp/gcverif-mut-evidence/{name}", GCVERIF_REPLAY_DIR=f"/tmp/gcverif-mut-replays/{name}")
         p = subprocess.run([os.path.join(VERIF, "check"), pid, "quick"], capture_output=True, text=True, env=e)
         mech = [l.strip().split(" monitor=")[0].replace("mechanism=", "") for l in p.stdout.split("\n") if l.strip().startswith("mechanism=")]
@@ -29,8 +29,10 @@ def one(d):
     subprocess.run(f"git -C /repo worktree remove --force {wt}", shell=True, capture_output=True)
     return name, m["property"], m["caught_by"], m["inconclusive"]
 
+QUICK = "--all" not in sys.argv
+
 if __name__ == "__main__":
-    sel = sys.argv[1:]
+    sel = [a for a in sys.argv[1:] if not a.startswith("--")]
     dirs = [d for d in sorted(glob.glob(os.path.join(VERIF, "seeded", "*"))) if not sel or any(s in d for s in sel)]
     with ThreadPoolExecutor(3) as ex:
         for name, prop, caught, inc in ex.map(one, dirs):
